@@ -290,31 +290,32 @@ void h_viol_to_string(void) { const int base = 10; VF_INPUT_BOOL(uns); unsigned 
   VF_NORETURN_EXPECTED(); }
 
 /* =========================================== 16 bit (thorough) ======================================================== */
-/* one cell per base 2..36 (split=CC_B:2:36): with a symbolic base the 16-bit division/multiplication relations need > 20 min per group,
- * with a constant base seconds per cell; the 35 cells together are the complete (type, every base) proof. */
-/*@GROUP name=to_chars_i16 props=C10,C02 kind=K unwind=20 tier=thorough timeout=600 cost=3 split=CC_B:2:36 solver=kissat@*/
-void h_to_chars_i16(void) { const int base = CC_B; FMT_PRE(i16, 16, CC_D16, CC_D16 + 2);
+/* formatting: symbolic base (5 - 10 min per group).  Parsing and round trip: one cell per base 2..36 (split=CC_B:2:36) with
+ * digits(base)+3 characters: with a symbolic base and 19 characters a group needs > 20 min, a cell about half a minute; the 35 cells
+ * together are the complete (type, every base) proof. */
+/*@GROUP name=to_chars_i16 props=C10,C02 kind=K unwind=20 tier=thorough timeout=1200 cost=8 solver=kissat@*/
+void h_to_chars_i16(void) { SYM_BASE(); FMT_PRE(i16, 16, 16, 18);
   VF_KNOWN(C10_format_store_before_length_check, v != 0 && (L == 0 || (L == 1 && v < 0 && base == 10)));
   VF_KNOWN(C10_to_chars_exact_fit_rejected, v != 0 && L == n);
   VF_KNOWN(C10_format_sign_only_base10, v < 0 && base != 10);
-  TO_CHARS_POST(i16, 16, CC_D16); }
+  TO_CHARS_POST(i16, 16, 16); }
 
-/*@GROUP name=to_chars_u16 props=C10,C02 kind=K unwind=20 tier=thorough timeout=600 cost=3 split=CC_B:2:36 solver=kissat@*/
-void h_to_chars_u16(void) { const int base = CC_B; FMT_PRE(u16, 16, CC_D16, CC_D16 + 2);
+/*@GROUP name=to_chars_u16 props=C10,C02 kind=K unwind=20 tier=thorough timeout=1200 cost=8 solver=kissat@*/
+void h_to_chars_u16(void) { SYM_BASE(); FMT_PRE(u16, 16, 16, 18);
   VF_KNOWN(C10_format_store_before_length_check, v != 0 && L == 0);
   VF_KNOWN(C10_to_chars_exact_fit_rejected, v != 0 && L == n);
-  TO_CHARS_POST(u16, 16, CC_D16); }
+  TO_CHARS_POST(u16, 16, 16); }
 
-/*@GROUP name=from_integer_i16 props=C10,C02 kind=K unwind=20 tier=thorough timeout=600 cost=3 split=CC_B:2:36 solver=kissat@*/
-void h_from_integer_i16(void) { const int base = CC_B; FMT_PRE(i16, 16, CC_D16, CC_D16 + 2);
+/*@GROUP name=from_integer_i16 props=C10,C02 kind=K unwind=20 tier=thorough timeout=1200 cost=8 solver=kissat@*/
+void h_from_integer_i16(void) { SYM_BASE(); FMT_PRE(i16, 16, 16, 18);
   VF_KNOWN(C10_format_store_before_length_check, v != 0 && (L == 0 || (L == 1 && v < 0 && base == 10)));
   VF_KNOWN(C10_format_sign_only_base10, v < 0 && base != 10);
-  FROM_INTEGER_POST(i16, 16, CC_D16); }
+  FROM_INTEGER_POST(i16, 16, 16); }
 
-/*@GROUP name=from_integer_u16 props=C10,C02 kind=K unwind=20 tier=thorough timeout=600 cost=3 split=CC_B:2:36 solver=kissat@*/
-void h_from_integer_u16(void) { const int base = CC_B; FMT_PRE(u16, 16, CC_D16, CC_D16 + 2);
+/*@GROUP name=from_integer_u16 props=C10,C02 kind=K unwind=20 tier=thorough timeout=1200 cost=8 solver=kissat@*/
+void h_from_integer_u16(void) { SYM_BASE(); FMT_PRE(u16, 16, 16, 18);
   VF_KNOWN(C10_format_store_before_length_check, v != 0 && L == 0);
-  FROM_INTEGER_POST(u16, 16, CC_D16); }
+  FROM_INTEGER_POST(u16, 16, 16); }
 
 /*@GROUP name=from_chars_i16 props=C10,C02 kind=K unwind=22 tier=thorough timeout=600 cost=3 split=CC_B:2:36 solver=kissat@*/
 void h_from_chars_i16(void) { const int base = CC_B; RANGE_IN(CC_D16 + 3); FROM_CHARS_PRE(i16, 16, CC_D16 + 3);
@@ -541,11 +542,15 @@ void h_sto_len8(void) { const int base = CC_BASE; VF_INPUT(u8, fn); RANGE_IN(8);
   STO_ANY(fn)
   VF_REACH(); }
 
-/*@GROUP name=sto_near props=C10,C02 kind=B bound=first_digits-4_digits_equal_LONG_MIN/MAX_or_ULONG_MAX;no_whitespace;base_10 unwind=28 tier=thorough timeout=1200 split=CC_BI:2:2 cost=7 solver=kissat@*/
-void h_sto_near(void) { const int base = CC_BASE; VF_INPUT(u8, fn); RANGE_IN(CC_D64 + 3); const _Bool uns = fn >= 2; VF_INPUT_BOOL(want_pos);
-  if (uns) NEAR_LIMIT_STR(u64, CC_D64 + 3) else NEAR_LIMIT_STR(i64, CC_D64 + 3)
-  const ref_t r = REF64(uns, CC_D64 + 3);
+/*@GROUP name=stol_near props=C10,C02 kind=B bound=first_15_digits_equal_LONG_MIN/MAX;no_whitespace;base_10 unwind=28 tier=thorough timeout=1200 split=CC_BI:2:2 cost=7 solver=kissat@*/
+void h_stol_near(void) { const int base = CC_BASE; VF_INPUT_BOOL(ll); RANGE_IN(CC_D64 + 3); NEAR_LIMIT_STR(i64, CC_D64 + 3); STO_PRE(i64, 64, CC_D64 + 3, 0);
   VF_KNOWN(C10_parse_plus_sign_rejected, r.plus);
-  VF_KNOWN(C10_parse_unsigned_minus_rejected, uns && r.minus);
-  STO_ANY(fn)
+  if (ll) STO_POST(s_stoll, long long) else STO_POST(s_stol, long)
+  VF_REACH(); }
+
+/*@GROUP name=stoul_near props=C10,C02 kind=B bound=first_16_digits_equal_ULONG_MAX;no_whitespace;base_10 unwind=28 tier=thorough timeout=1200 split=CC_BI:2:2 cost=7 solver=kissat@*/
+void h_stoul_near(void) { const int base = CC_BASE; VF_INPUT_BOOL(ll); RANGE_IN(CC_D64 + 3); NEAR_LIMIT_STR(u64, CC_D64 + 3); STO_PRE(u64, 64, CC_D64 + 3, 1);
+  VF_KNOWN(C10_parse_plus_sign_rejected, r.plus);
+  VF_KNOWN(C10_parse_unsigned_minus_rejected, r.minus);
+  if (ll) STO_POST(s_stoull, unsigned long long) else STO_POST(s_stoul, unsigned long)
   VF_REACH(); }
